@@ -37,6 +37,7 @@ const (
 )
 
 // Frozen on the tree with the fix: commits applied (2026-09-28). Keyed by "<package dir>:<Recv.Func>".
+// anchors:off (the table is matched against the compiler's positions, not against SSA functions)
 var bceTable = map[string]bceRow{
 	"auth:Action.IsObjectAction":                          {1, 0, "a[len(a)-1]: only called on actions that passed IsValid (prefix \"s3:\" => non-empty)"},
 	"auth:IpaIAMService.GetUserAccount":                   {2, 0, "uidnumber/gidnumber[0] of an IPA reply (external IAM service, not client data)"},
@@ -115,6 +116,8 @@ var bceTable = map[string]bceRow{
 	"s3log:WebhookLogger.Log":                             {0, 1, whyRoute + ": guarded by len(path) > 1"},
 	"s3log:genID":                                         {1, 0, whyStd},
 }
+
+// anchors:on
 
 type bceSite struct {
 	file string
@@ -288,12 +291,28 @@ func runC20(p *Program, r *Report) {
 									continue // map lookups have no bounds
 								}
 							}
+							// a constant index into a fixed-size array needs no check (building `[...]T{a, b}`)
+							if ia, isIA := x.(*ssa.IndexAddr); isIA {
+								t := ia.X.Type().Underlying()
+								if pt, isP := t.(*types.Pointer); isP {
+									t = pt.Elem().Underlying()
+								}
+								if at, isArr := t.(*types.Array); isArr {
+									if k, isC := constInt(ia.Index); isC && k >= 0 && k < at.Len() {
+										continue
+									}
+								}
+							}
 							if in.Pos().IsValid() {
 								ps := p.Fset.Position(in.Pos())
 								k := strings.TrimPrefix(ps.Filename, p.Dir+"/") + ":" + itoa(ps.Line)
-								own[k] = true
+								kind := ":IsInBounds"
+								if _, isSl := x.(*ssa.Slice); isSl {
+									kind = ":IsSliceInBounds"
+								}
+								own[k+kind] = true
 								if !indexProvedBySearchIdiom(in) {
-									ownUnproved[k] = true
+									ownUnproved[k+kind] = true
 								}
 							}
 						}
@@ -352,8 +371,8 @@ func runC20(p *Program, r *Report) {
 			ownN, copies, idiom := 0, 0, 0
 			_ = idiom
 			for _, s := range ss {
-				if k := fmt.Sprintf("%s:%d", s.file, s.line); !own[k] {
-					for _, callee := range callsModule[k] {
+				if k := fmt.Sprintf("%s:%d:%s", s.file, s.line, s.kind); !own[k] {
+					for _, callee := range callsModule[fmt.Sprintf("%s:%d", s.file, s.line)] {
 						if len(sites[callee]) > 0 {
 							copies++
 							break
@@ -366,7 +385,7 @@ func runC20(p *Program, r *Report) {
 					slb++
 				}
 				where = append(where, fmt.Sprintf("%s:%d(%s)", s.file, s.line, s.kind))
-				if k := fmt.Sprintf("%s:%d", s.file, s.line); own[k] && !ownUnproved[k] {
+				if k := fmt.Sprintf("%s:%d:%s", s.file, s.line, s.kind); own[k] && !ownUnproved[k] {
 					idiom++ // x[i] with i the non-negative result of a search in x itself: in bounds by the library's contract
 				} else if own[k] {
 					ownN++
